@@ -172,34 +172,33 @@ AfterSum == (Built /\ alg.pc \in {"transpose", "swap", "check"}) =>
 AfterTranspose == (Built /\ alg.pc \in {"swap", "check"}) =>
                /\ alg.t \in Letters /\ alg.t # alg.s
                /\ Count(b, alg.t) >= 1 /\ Count(o, alg.t) >= 1 /\ Count(x, alg.t) = 0
-\* the swap permutes the characters of the blocks subscripts and touches exactly two positions
+\* the swap exchanges the two letters at every position of the blocks subscripts and nothing else
 AfterSwap == (Built /\ (alg.pc = "check" \/ (alg.pc = "end" /\ alg.ok))) =>
                /\ Len(alg.l) = Len(L0)
-               /\ \A c \in StrSet(L0) \cup StrSet(alg.l) : Count(alg.l, c) = Count(L0, c)
-               /\ Cardinality({p \in 1..Len(L0) : alg.l[p] # L0[p]}) = 2
+               /\ \A p \in 1..Len(L0) : alg.l[p] = (IF L0[p] = alg.s THEN alg.t
+                                                   ELSE IF L0[p] = alg.t THEN alg.s ELSE L0[p])
+               /\ Count(alg.l, alg.s) = Count(L0, alg.t) /\ Count(alg.l, alg.t) = Count(L0, alg.s)
+               /\ Cardinality({p \in 1..Len(L0) : alg.l[p] # L0[p]}) = Count(L0, alg.s) + Count(L0, alg.t)
                /\ alg.r = R0 /\ alg.o = O0
 
 \* the accepted strings are exactly the characterised set
 AcceptSet == (Ended /\ WellWritten(form)) => (alg.ok <=> Accepts(b, x, o))
 
-Dev == Dev_RepeatedLetter(alg)
+Rep == RepeatedLetter(alg)
 
-\* transposing twice gives back the very same string (not in the deviation class: 'iij,i->j' gives
-\* 'jii,i->j', which gives 'iji,i->j')
-Involution == (Ended /\ alg.ok /\ ~Dev) =>
+\* transposing twice gives back the very same string
+Involution == (Ended /\ alg.ok) =>
                  LET a2 == GetTransposedSubscripts(ResultString(alg))
                  IN a2.ok /\ a2.l = L0 /\ a2.r = R0 /\ a2.o = O0
 
 \* accepted strings are einsums the library can evaluate on shapes that fit the letters
 AcceptedAreValid == (phase = "done" /\ alg.ok /\ jd.ctor) => jd.valid
 
-(* C14: the algorithm raises, or returns the subscripts of the exact adjoint -
-   outside the known deviation class *)
-AdjointOrError == (phase = "done" /\ jd.valid /\ alg.ok /\ ~Dev) => jd.adj = "ok"
-(* ... and inside that class the returned string is never the adjoint (O10 is a design-level defect):
-   einsum rejects it when the letter sizes differ, silently wrong when they are equal *)
-DeviationIsDefect == (phase = "done" /\ jd.valid /\ alg.ok /\ Dev) =>
-                        IF par.mode = "equal" THEN jd.adj = "wrong" ELSE jd.adj \in {"invalid", "wrong"}
+(* C14: the algorithm raises, or returns the subscripts of the exact adjoint - for every string *)
+AdjointOrError == (phase = "done" /\ jd.valid /\ alg.ok) => jd.adj = "ok"
+(* ... in particular in the class of O10 (repeated summed / transposed letter in the blocks subscripts),
+   where the algorithm before furax a5387e9 was wrong for every string *)
+RepeatedLetterIsAdjoint == (phase = "done" /\ jd.valid /\ alg.ok /\ Rep) => jd.adj = "ok"
 
 Emit == phase = "done" =>
           PrintT(<<"CASE", ToJson([b |-> b, x |-> x, o |-> o, form |-> form, sub |-> Written(form),
@@ -207,5 +206,5 @@ Emit == phase = "done" =>
                                    blocks |-> jd.blocks, xs |-> jd.xs,
                                    ctor |-> jd.ctor, ctorwhy |-> jd.ctorwhy, valid |-> jd.valid, outs |-> jd.outs,
                                    tok |-> alg.ok, twhy |-> alg.why, tsub |-> IF alg.ok THEN ResultString(alg) ELSE <<>>,
-                                   dev |-> Dev, adj |-> jd.adj, hasden |-> jd.hasden, den |-> jd.den])>>)
+                                   dev |-> Rep, adj |-> jd.adj, hasden |-> jd.hasden, den |-> jd.den])>>)
 =============================================================================
